@@ -12,7 +12,8 @@
 (***************************************************************************)
 EXTENDS RstWriter
 
-CONSTANTS Pages      \* set of pages: sequences of entries (the module entry excluded)
+CONSTANTS Pages      \* set of pages: sequences of entries; a page may begin with a module entry (a file that starts
+                     \* with a '@module' doccomment), otherwise the Documenter supplies an empty one
 
 VARIABLES page,     \* the entries being rendered
           todo,     \* writer calls still to make
@@ -60,8 +61,10 @@ EntryOps(e) ==
 PageOps(p) == Flatten2([j \in 1..Len(p) |-> EntryOps(p[j])])
 
 ModuleEntry == [k |-> "module", name |-> "MODNAME", hasdoc |-> FALSE, doc |-> <<>>]
+HasModule(p) == Len(p) > 0 /\ p[1].k = "module"
+Entries(p) == IF HasModule(p) THEN Tail(p) ELSE p
 EInit == /\ nodes = <<>> /\ outs = <<>> /\ nread = 0 /\ title = [id |-> "TITLE", len |-> 5] /\ hist = <<>>
-         /\ page \in Pages /\ todo = PageOps(<<ModuleEntry>> \o page) /\ hmap = [k \in Keys |-> 0]
+         /\ page \in Pages /\ todo = PageOps(IF HasModule(page) THEN page ELSE <<ModuleEntry>> \o page) /\ hmap = [k \in Keys |-> 0]
 
 \* one writer call
 Call ==
@@ -86,7 +89,7 @@ TopDirs == SeqOfSet({n \in 1..Len(nodes) : nodes[n].k = "dir" /\ nodes[n].par = 
 \* one title, then one module directive, then the entries as top-level siblings
 C07_TitleModuleEntries ==
   Rendered => /\ SubSeq(Lines(0), 1, 4) = HeadingLines
-              /\ Len(TopDirs) = Len(page) + 1
+              /\ Len(TopDirs) = Len(Entries(page)) + 1
               /\ nodes[TopDirs[1]].tag[1] = "module"
               /\ \A j \in 2..Len(TopDirs) : nodes[TopDirs[j]].tag[1] # "module"
               /\ Children(0) = {TopDirs[j] : j \in 1..Len(TopDirs)}       \* nothing but directives at the top level
